@@ -112,11 +112,11 @@ fn target_near(u: &[UNode], rng: &mut Rng) -> [u8; 20] {
     }
 }
 
-pub fn behaviour(b: u64, rng: &mut Rng, out: &mut Out, big: bool) -> (u64, Value) {
+pub fn behaviour(b: u64, rng: &mut Rng, out: &mut Out, big: bool, big_hi: u64) -> (u64, Value) {
     v::reset_clock();
     let tid = rng.id();
-    let n = if big { rng.range(100, 300) as usize } else { rng.range(4, 45) as usize };
-    let u = universe(rng, &tid, n, b);
+    let n = if big { rng.range(big_hi / 2, big_hi) as usize } else { rng.range(4, 45) as usize };
+    let u = universe(rng, &tid, n, if big { 1 + (b % 2) * 2 } else { b });
     let mut index = HashMap::new();
     for (i, x) in u.iter().enumerate() {
         index.entry((x.id, x.addr)).or_insert(i);
@@ -128,7 +128,7 @@ pub fn behaviour(b: u64, rng: &mut Rng, out: &mut Out, big: bool) -> (u64, Value
     let nops = if big { n as u64 + 30 } else { rng.range(10, 70) };
     let mut sample_ops = vec![];
     for step in 0..nops {
-        let w = if big && step < n as u64 { 0 } else { rng.below(100) };
+        let w = if big && step < n as u64 { 0 } else if big { 77 + rng.below(23) } else { rng.below(100) };
         let ev = if w < 55 {
             let i = if big && step < n as u64 { step as usize } else { rng.below(u.len() as u64) as usize };
             let ret = table.add(Node::new(Id::from(u[index[&(u[i].id, u[i].addr)]].id), u[i].addr));
@@ -197,6 +197,7 @@ pub fn run(args: &Args) -> i32 {
     let mut out = Out::create(&args.str("out", "/verif/work/C12/trace.ndjson"));
     let n = args.u64("behaviours", 120);
     let big = args.u64("big", 2);
+    let big_hi = args.u64("big-hi", 300);
     let mut ops = 0;
     let mut samples = vec![];
     let only = args.get("only").and_then(|x| x.parse::<u64>().ok());
@@ -205,11 +206,11 @@ pub fn run(args: &Args) -> i32 {
         if let Some(o) = only {
             if o != b {
                 // keep the random stream aligned: generate but discard
-                let _ = behaviour(b, &mut rng, &mut sink, b >= n);
+                let _ = behaviour(b, &mut rng, &mut sink, b >= n, big_hi);
                 continue;
             }
         }
-        let (o, s) = behaviour(b, &mut rng, &mut out, b >= n);
+        let (o, s) = behaviour(b, &mut rng, &mut out, b >= n, big_hi);
         ops += o;
         if samples.len() < 3 {
             samples.push(s);
